@@ -33,6 +33,7 @@ func init() { register("C15", runC15) }
 type ecFile struct {
 	src   string
 	mtime int64
+	ver   int64 // the version this source stands for (ecWorld.src(ver) == src)
 }
 
 // ecLoader satisfies twig.Loader only (method set: Load, Exists).
@@ -41,6 +42,11 @@ type ecLoader struct {
 	loads map[string]int // calls of Load(name)
 	stats map[string]int // calls of GetModifiedTime(name) (timestamp-aware flavour only)
 	wrap  bool           // whether the "no such template" error wraps twig.ErrTemplateNotFound
+	// backing (c15_content.go): nil = the map above answers; otherwise the library's own loader holds the sources
+	// (files stays the harness-side ground truth and keeps the modification times)
+	lib   twig.Loader
+	arr   *twig.ArrayLoader
+	chain bool
 }
 
 func newEcLoader(wrap bool) *ecLoader {
@@ -56,6 +62,9 @@ func (l *ecLoader) missing(name string) error {
 
 func (l *ecLoader) Load(name string) (string, error) {
 	l.loads[name]++
+	if l.lib != nil {
+		return l.lib.Load(name)
+	}
 	f, ok := l.files[name]
 	if !ok {
 		return "", l.missing(name)
@@ -63,7 +72,13 @@ func (l *ecLoader) Load(name string) (string, error) {
 	return f.src, nil
 }
 
-func (l *ecLoader) Exists(name string) bool { _, ok := l.files[name]; return ok }
+func (l *ecLoader) Exists(name string) bool {
+	if l.lib != nil {
+		return l.lib.Exists(name)
+	}
+	_, ok := l.files[name]
+	return ok
+}
 
 // ecTSLoader additionally satisfies twig.TimestampAwareLoader (Loader + GetModifiedTime).
 type ecTSLoader struct{ *ecLoader }
@@ -152,6 +167,7 @@ func ecParseTag(out string) int64 {
 
 type ecImpl struct {
 	e       *twig.Engine
+	w       ecWorld
 	loaders []*ecLoader
 	ts      []bool
 	// bookkeeping for the implementation-only oracles
@@ -159,10 +175,11 @@ type ecImpl struct {
 	prevCall int64           // name of the immediately preceding successful call (-1: none / other op in between)
 	prevOut  int64
 	oracle   []string // oracle failures of the current step
+	pending  []string // loaderTruth failures since the last call: reported after that call's own oracles (or at the end)
 }
 
-func newEcImpl() *ecImpl {
-	return &ecImpl{e: twig.New(), lastReg: map[int64]int64{}, prevCall: -1}
+func newEcImpl(w ecWorld) *ecImpl {
+	return &ecImpl{e: twig.New(), w: w, lastReg: map[int64]int64{}, prevCall: -1}
 }
 
 func (x *ecImpl) cachedMask() int64 {
@@ -233,7 +250,7 @@ func (x *ecImpl) call(n int64, viaRender bool) int64 {
 	var res int64
 	switch {
 	case err == nil:
-		res = ecParseTag(out)
+		res = x.w.parse(out)
 	case errors.Is(err, twig.ErrTemplateNotFound):
 		res = ecNotFound
 	default:
@@ -275,8 +292,8 @@ func (x *ecImpl) call(n int64, viaRender bool) int64 {
 				break
 			}
 		}
-		if anyHolder && res != ecParseTag(holderFile.src) {
-			x.fail("S5: loaders were read, loader %d holds %s for %s, but %d was served", holderIdx, holderFile.src, name, res)
+		if anyHolder && res != holderFile.ver {
+			x.fail("S5: loaders were read, loader %d holds %q (v%d) for %s, but %d was served", holderIdx, holderFile.src, holderFile.ver, name, res)
 		}
 		if !anyHolder && res != ecNotFound {
 			x.fail("S6: loaders were read, none has %s, result %d", name, res)
@@ -309,6 +326,9 @@ func (x *ecImpl) call(n int64, viaRender bool) int64 {
 	} else {
 		x.prevCall = -1
 	}
+	// what the library's loaders answered wrongly since the last call comes after what the engine made of it
+	x.oracle = append(x.oracle, x.pending...)
+	x.pending = nil
 	return res
 }
 
@@ -343,6 +363,7 @@ func (x *ecImpl) do(o ecOp) (obs []int64) {
 			x.e.SetDevelopmentMode(a(0) != 0)
 		case "addloader":
 			l := newEcLoader(len(x.loaders)%2 == 0)
+			x.w.back(l)
 			x.loaders = append(x.loaders, l)
 			x.ts = append(x.ts, a(0) != 0)
 			if a(0) != 0 {
@@ -351,21 +372,21 @@ func (x *ecImpl) do(o ecOp) (obs []int64) {
 				x.e.RegisterLoader(l)
 			}
 		case "regstr":
-			if err := x.e.RegisterString(ecName(a(0)), ecTag(a(1))); err != nil {
+			if err := x.e.RegisterString(ecName(a(0)), x.w.src(a(1))); err != nil {
 				x.fail("RegisterString: %v", err)
 			}
 			x.lastReg[a(0)] = a(1)
 		case "regtpl":
 			// even versions: ParseTemplate + RegisterTemplate; odd versions: RegisterCompiledTemplate
 			if a(1)%2 == 0 {
-				t, err := x.e.ParseTemplate(ecTag(a(1)))
+				t, err := x.e.ParseTemplate(x.w.src(a(1)))
 				if err != nil {
 					x.fail("ParseTemplate: %v", err)
 					return
 				}
 				x.e.RegisterTemplate(ecName(a(0)), t)
 			} else {
-				c := &twig.CompiledTemplate{Name: ecName(a(0)), Source: ecTag(a(1))}
+				c := &twig.CompiledTemplate{Name: ecName(a(0)), Source: x.w.src(a(1))}
 				if err := x.e.RegisterCompiledTemplate(c); err != nil {
 					x.fail("RegisterCompiledTemplate: %v", err)
 				}
@@ -373,16 +394,18 @@ func (x *ecImpl) do(o ecOp) (obs []int64) {
 			x.lastReg[a(0)] = a(1)
 		case "put":
 			if i := int(a(0)); i < len(x.loaders) {
-				x.loaders[i].files[ecName(a(1))] = ecFile{ecTag(a(2)), a(3)}
+				x.loaders[i].put(ecName(a(1)), ecFile{x.w.src(a(2)), a(3), a(2)})
+				x.loaderTruth(i)
 			}
 		case "del":
 			if i := int(a(0)); i < len(x.loaders) {
-				delete(x.loaders[i].files, ecName(a(1)))
+				x.loaders[i].del(ecName(a(1)))
+				x.loaderTruth(i)
 			}
 		case "touch":
 			if i := int(a(0)); i < len(x.loaders) {
 				if f, ok := x.loaders[i].files[ecName(a(1))]; ok {
-					x.loaders[i].files[ecName(a(1))] = ecFile{f.src, a(2)}
+					x.loaders[i].files[ecName(a(1))] = ecFile{f.src, a(2), f.ver}
 				}
 			}
 		case "load":
@@ -410,6 +433,13 @@ func (x *ecImpl) do(o ecOp) (obs []int64) {
 	return obs
 }
 
+func ecOracleBroken(cls string) string {
+	if cls == "loader" {
+		return "implementation-only oracle of C15: the library's ArrayLoader / ChainLoader hand back what they were given (what \"a loader has the name\" means in theorems C15_S5_first_loader_wins / C15_S6_notfound_iff)"
+	}
+	return "implementation-only oracle for sentence " + cls + " of C15 (theorems C15_" + cls + "_*)"
+}
+
 type ecMismatch struct {
 	step   int
 	key    string
@@ -420,8 +450,8 @@ type ecMismatch struct {
 }
 
 // ecRun runs one history on a fresh real engine and (if present) the model, returns the first disagreement.
-func ecRun(e *Env, ops []ecOp) (*ecMismatch, [][]int64, error) {
-	x := newEcImpl()
+func ecRun(e *Env, w ecWorld, ops []ecOp) (*ecMismatch, [][]int64, error) {
+	x := newEcImpl(w)
 	obs := make([][]int64, 0, len(ops))
 	var first *ecMismatch
 	for k, o := range ops {
@@ -433,8 +463,12 @@ func ecRun(e *Env, ops []ecOp) (*ecMismatch, [][]int64, error) {
 				cls = cls[:i]
 			}
 			first = &ecMismatch{step: k, key: "oracle-" + cls, what: x.oracle[0],
-				broken: "implementation-only oracle for sentence " + cls + " of C15 (theorems C15_" + cls + "_*)", impl: ob}
+				broken: ecOracleBroken(cls), impl: ob}
 		}
+	}
+	if first == nil && len(x.pending) > 0 {
+		first = &ecMismatch{step: len(ops) - 1, key: "oracle-loader", what: x.pending[0],
+			broken: ecOracleBroken("loader"), impl: obs[len(obs)-1]}
 	}
 	if e.Model == nil {
 		return first, obs, nil
@@ -495,10 +529,10 @@ func ecRun(e *Env, ops []ecOp) (*ecMismatch, [][]int64, error) {
 }
 
 // ecShrink drops operations while the same class of failure remains.
-func ecShrink(e *Env, ops []ecOp, mm *ecMismatch) ([]ecOp, *ecMismatch) {
+func ecShrink(e *Env, w ecWorld, ops []ecOp, mm *ecMismatch) ([]ecOp, *ecMismatch) {
 	cur := append([]ecOp(nil), ops[:mm.step+1]...)
 	best := mm
-	if m2, _, err := ecRun(e, cur); err == nil && m2 != nil && m2.key == mm.key {
+	if m2, _, err := ecRun(e, w, cur); err == nil && m2 != nil && m2.key == mm.key {
 		best = m2
 	} else {
 		return ops, mm
@@ -508,7 +542,7 @@ func ecShrink(e *Env, ops []ecOp, mm *ecMismatch) ([]ecOp, *ecMismatch) {
 		for i := len(cur) - 1; i >= 0; i-- {
 			cand := append(append([]ecOp(nil), cur[:i]...), cur[i+1:]...)
 			// a loader index must stay meaningful: never drop an addloader that is followed by later ones
-			m2, _, err := ecRun(e, cand)
+			m2, _, err := ecRun(e, w, cand)
 			if err == nil && m2 != nil && m2.key == mm.key {
 				cur, best, changed = cand[:m2.step+1], m2, true
 				break
@@ -519,9 +553,9 @@ func ecShrink(e *Env, ops []ecOp, mm *ecMismatch) ([]ecOp, *ecMismatch) {
 }
 
 // ecCheck runs a history, records coverage, reports (shrunk) violations. false = violation budget exhausted.
-func ecCheck(e *Env, ops []ecOp, tag string, want []int64) (bool, error) {
+func ecCheck(e *Env, w ecWorld, ops []ecOp, tag string, want []int64) (bool, error) {
 	r := e.Rep
-	mm, obs, err := ecRun(e, ops)
+	mm, obs, err := ecRun(e, w, ops)
 	if err != nil {
 		return false, err
 	}
@@ -545,7 +579,8 @@ func ecCheck(e *Env, ops []ecOp, tag string, want []int64) (bool, error) {
 		r.Hit("history-with-served-call")
 	}
 	r.Hit(fmt.Sprintf("len:%d", (len(ops)+9)/10*10))
-	r.Seen(ecOpsString(ops), calls > 0 && (served > 0 || nf > 0))
+	r.Hit("backing:" + w.backingName())
+	r.Seen(w.String()+ecOpsString(ops), calls > 0 && (served > 0 || nf > 0))
 	if mm == nil && want != nil {
 		// regression corpus: the outputs of the calls are pinned
 		var got []int64
@@ -559,18 +594,20 @@ func ecCheck(e *Env, ops []ecOp, tag string, want []int64) (bool, error) {
 				what:   fmt.Sprintf("regression case %s: calls gave %v, pinned expectation %v", tag, got, want),
 				broken: "regression corpus of C15 (" + tag + ")", impl: got, model: want}
 			v := Violation{Key: mm.key, What: mm.what, Broken: mm.broken,
-				Replay: map[string]any{"kind": "enginecache", "ops": ecOpsJSON(ops), "text": ecOpsString(ops), "got": got, "want": want}}
+				Replay: map[string]any{"kind": "enginecache", "ops": ecOpsJSON(ops), "text": ecOpsString(ops), "got": got, "want": want,
+					"backing": w.backingName(), "odd": w.oddJSON()}}
 			return !r.Violate(v), nil
 		}
 	}
 	if mm == nil {
 		return true, nil
 	}
-	small, m2 := ecShrink(e, ops, mm)
+	small, m2 := ecShrink(e, w, ops, mm)
 	v := Violation{Key: m2.key, What: m2.what, Broken: m2.broken,
 		Replay: map[string]any{"kind": "enginecache", "names": ecNames, "ops": ecOpsJSON(small), "text": ecOpsString(small),
 			"step": m2.step, "impl": m2.impl, "model": m2.model, "layout": "[out, flags(cache+2auto+4debug), cachedMask, loads…, stats…] loader-major",
-			"original_len": len(ops), "source": tag}}
+			"original_len": len(ops), "source": tag, "backing": w.backingName(), "odd": w.usedBy(small).oddJSON(),
+			"sources": "version k stands for the source \"vk\" unless listed in odd; backing = which loader implementation holds the loaders' sources"}}
 	return !r.Violate(v), nil
 }
 
@@ -805,14 +842,16 @@ func ecReplay(e *Env) error {
 		}
 		ops = append(ops, o)
 	}
-	_, err = ecCheck(e, ops, "replay", nil)
+	_, err = ecCheck(e, ecWorldFromReplay(doc), ops, "replay", nil)
 	return err
 }
 
 func runC15(e *Env) error {
 	r := e.Rep
 	r.Rule = "(0) 40-step histories of file writes / removals / renders over FileSystemLoader with three search paths, two registered loaders and a ChainLoader: a long-lived engine (cache off; cache + auto-reload) renders what an engine created now renders; (0b) histories over FileSystemLoader / CompiledLoader (bare and inside a ChainLoader) whose writes keep or change modification time (newer, same, older, sub-second), length and inode independently, removals and re-creations with identical metadata: loader.Load, a cache-less engine and an engine created now over the long-lived loader give the content as written, caching engines what the six sentences say; operation histories on a fresh twig.Engine with 2–4 in-memory loaders (timestamp-aware and not) and 3 names; every source is a " +
-		"version tag; (a) pinned regression histories, (b) every word of length ≤ N over a 10-letter alphabet acting on one name, from 3 loader " +
+		"version tag, or (content sweep and half of the random histories) some versions stand for unusual sources — empty, blank-only, comment-only, \"0\" / \"false\" / \"null\", > 4096 bytes — " +
+		"and the loaders' sources are held by the harness map, by the library's ArrayLoader (SetTemplate / NewArrayLoader) or by an ArrayLoader inside a ChainLoader, whose Load / Exists are also compared with what was put; " +
+		"(a) pinned regression histories, (a') the pinned histories and every word of length ≤ 2–3 in every backing × rotation of the unusual sources, (b) every word of length ≤ N over a 10-letter alphabet acting on one name, from 3 loader " +
 		"setups, (c) random histories of ≤ 60 ops over 11 operation kinds; after every op: served tag / error class, Load and GetModifiedTime " +
 		"counters per loader×name, cache keys and flags are compared with EngineCache.step, served with Spec.expected, and the six sentences are " +
 		"checked directly; non-trivial = the history contains a call that served a version or reported not-found; distinct by op sequence"
@@ -825,7 +864,7 @@ func runC15(e *Env) error {
 	c15Compiled(e)
 	// (a) regression corpus
 	for _, c := range ecCorpus() {
-		ok, err := ecCheck(e, c.ops, c.name, c.want)
+		ok, err := ecCheck(e, ecWorld{}, c.ops, c.name, c.want)
 		if err != nil {
 			return err
 		}
@@ -833,6 +872,11 @@ func runC15(e *Env) error {
 		if !ok {
 			return nil
 		}
+	}
+	// (a') the same histories with unusual sources (empty, blank, comment-only, …) and with the library's own
+	// ArrayLoader / ChainLoader holding the loaders' sources (c15_content.go)
+	if ok, err := ecContentSweep(e); err != nil || !ok {
+		return err
 	}
 	// (b) exhaustive small scope
 	depth := e.N(4, 5)
@@ -846,7 +890,7 @@ func runC15(e *Env) error {
 			return
 		}
 		ops := ecInstantiate(su, word)
-		ok, err := ecCheck(e, ops, "exhaustive:"+su.name, nil)
+		ok, err := ecCheck(e, ecWorld{}, ops, "exhaustive:"+su.name, nil)
 		total++
 		if err != nil {
 			ferr, stop = err, true
@@ -888,7 +932,7 @@ func runC15(e *Env) error {
 		if i < 3 {
 			r.Sample(map[string]any{"kind": "random", "ops": truncate(ecOpsString(ops), 400)})
 		}
-		ok, err := ecCheck(e, ops, "random", nil)
+		ok, err := ecCheck(e, ecRandomWorld(e), ops, "random", nil)
 		if err != nil {
 			return err
 		}
